@@ -1,15 +1,29 @@
 package server
 
 // C16 — a conditional publish lands only at the offset it expected.
+//
+// One stream with optimistic concurrency control (1-3 partitions, each partition is one register
+// "length of the log"), 2-8 concurrent publishers. Swarm switches of a program (each is a share of the
+// programs, see genC16): publishers that use the unary Publish call or a long-lived PublishAsync
+// session, pipelining publishers (expected L, L+1, L+2 sent back to back), small segments with a
+// message-count retention and a fast cleaner, time passing inside operations, a clean stop and restart
+// of the server in the middle of the publishers, and a 3-server variant (replication factor 3,
+// publishers talk to any server, a server that leads no partition may be killed and restarted).
 
 import (
 	"bytes"
+	"context"
+	"errors"
 	"fmt"
+	"io"
+	"math"
+	"path/filepath"
 	"testing"
 	"time"
 
 	client "github.com/liftbridge-io/liftbridge-api/v2/go"
 	"google.golang.org/grpc/codes"
+	"google.golang.org/grpc/metadata"
 	"google.golang.org/grpc/status"
 
 	proto "github.com/liftbridge-io/liftbridge/server/protocol"
@@ -18,25 +32,92 @@ import (
 	"verif.local/simrt/hx"
 )
 
+const occStreamName = "occ"
+
+// avoidPauseOnReplicatedStream: pausing a replicated stream while a follower was appending a replication response
+// crashed that follower (partition.close closed the commit log before it stopped the replication loop;
+// handleReplicationResponse panicked with "Failed to replicate data to log ...: segment has been closed"). This
+// check ran into it with three servers, small segments and a pause; it is a server crash, not a matter of this
+// property, and was repaired in /repo by 669e46e while this variant was being built. Set this to true to keep
+// pauses out of the 3-server programs on a tree without that repair.
+const avoidPauseOnReplicatedStream = false
+
 func genC16(r *simrt.Rand, tier string, idx int) *hx.Program {
 	p := &hx.Program{P: map[string]int64{}}
 	p.P["sticky"] = []int64{0, 50, 80, 95}[r.Intn(4)]
 	p.P["batchmax"] = []int64{1, 2, 16, 1024}[r.Intn(4)]
 	p.P["batchtime_ms"] = []int64{0, 0, 5}[r.Intn(3)]
+	// swarm switches
+	nodes := 1
+	if r.Pct(7) {
+		nodes = 3
+	}
+	p.P["nodes"] = int64(nodes)
+	parts := []int{1, 1, 1, 2, 3}[r.Intn(5)]
+	p.P["parts"] = int64(parts)
+	asyncPct := []int{0, 0, 30, 60, 100}[r.Intn(5)]
+	pipePct := []int{0, 0, 8, 20}[r.Intn(4)]
+	p.P["asyncpct"], p.P["pipepct"] = int64(asyncPct), int64(pipePct) // (for the reader of a program; the draws are below)
+	if r.Pct(30) && nodes == 1 {
+		// small segments: the log rolls every one or two messages (every append first checks for a split).
+		// (One server only: with followers a full active segment makes leader and follower exchange empty
+		// replication round trips without pause until the next append rolls it, hundreds of thousands of steps.)
+		p.P["segbytes"] = []int64{200, 1000}[r.Intn(2)]
+		p.P["cleaner_ms"] = []int64{50, 200}[r.Intn(2)]
+		if r.Pct(50) {
+			p.P["retmsgs"] = []int64{2, 5, 10}[r.Intn(3)] // old segments are deleted while the publishers run
+		}
+	}
+	if r.Pct(25) {
+		// time passes while tasks are runnable: cleaner ticks, batch timers and deadlines fire inside operations
+		p.P["timeskip"] = 3
+		p.P["skipmax_ms"] = []int64{50, 500}[r.Intn(2)]
+		p.P["skipbudget_s"] = 20
+	}
+	faults := false
+	if nodes == 1 {
+		faults = r.Pct(15) // clean stop and restart of the server
+	} else {
+		faults = r.Pct(50) // a server that leads no partition is killed / restarted
+	}
 	npub := 2 + r.Intn(7)
 	n := 4 + r.Intn(24)
 	if tier == "thorough" {
 		n = 4 + r.Intn(40)
 	}
+	down := false
 	for i := 0; i < n; i++ {
 		pub := r.Intn(npub)
+		who := fmt.Sprintf("p%d", pub)
 		if r.Pct(8) {
-			p.Ops = append(p.Ops, hx.Op{K: "sleep", S: fmt.Sprintf("p%d", pub), A: []int64{int64(1 + r.Intn(30))}})
+			p.Ops = append(p.Ops, hx.Op{K: "sleep", S: who, A: []int64{int64(1 + r.Intn(30))}})
 			continue
 		}
 		if r.Pct(5) {
 			// the stream is paused; the next publish through the API resumes it
-			p.Ops = append(p.Ops, hx.Op{K: "pause", S: fmt.Sprintf("p%d", pub)})
+			if nodes == 1 || !avoidPauseOnReplicatedStream {
+				p.Ops = append(p.Ops, hx.Op{K: "pause", S: who})
+			}
+			continue
+		}
+		if faults && r.Pct(7) {
+			switch {
+			case nodes == 1:
+				p.Ops = append(p.Ops, hx.Op{K: "restart", S: who, A: []int64{int64(r.Intn(3))}})
+			case !down:
+				p.Ops = append(p.Ops, hx.Op{K: "crashf", S: who, A: []int64{int64(r.Intn(3))}})
+				down = true
+			default:
+				p.Ops = append(p.Ops, hx.Op{K: "restartf", S: who})
+				down = false
+			}
+			continue
+		}
+		part := int64(r.Intn(parts))
+		if r.Pct(pipePct) {
+			// a pipelining publisher: 2-4 publishes with consecutive expected offsets, none waits for the one before
+			base := []int64{0, 0, 0, 1, 2}[r.Intn(5)] // 0: starts at the offset the publishers believe is next, 1: one too low, 2: one too high
+			p.Ops = append(p.Ops, hx.Op{K: "pipe", S: who, A: []int64{int64(2 + r.Intn(3)), int64(1 + r.Intn(2)), int64(r.Uint64() >> 1), part, base, int64(r.Intn(3))}})
 			continue
 		}
 		kind := []int64{0, 1, 1, 1, 2, 3, 1, 4}[r.Intn(8)]
@@ -44,55 +125,358 @@ func genC16(r *simrt.Rand, tier string, idx int) *hx.Program {
 		if r.Pct(10) {
 			pol = 3 // ack policy NONE: refused on a stream with concurrency control (the publisher could not learn the outcome)
 		}
-		p.Ops = append(p.Ops, hx.Op{K: "pub", S: fmt.Sprintf("p%d", pub), A: []int64{kind, pol, int64(r.Uint64() >> 1)}})
+		mode := int64(0)
+		if r.Pct(asyncPct) {
+			mode = 1 // through the publisher's PublishAsync session
+		}
+		deadline := int64(0) // (the usual 5 s)
+		if r.Pct(8) {
+			deadline = int64(1 + r.Intn(3)) // milliseconds: the publisher gives up early and does not learn the outcome
+		}
+		p.Ops = append(p.Ops, hx.Op{K: "pub", S: who, A: []int64{kind, pol, int64(r.Uint64() >> 1), part, mode, int64(r.Intn(3)), deadline}})
 	}
 	return p
 }
 
 type occIn struct{ Expected int64 }
+
+// occOut is what the publisher learned: Kind 0 accepted at Offset, 1 rejected with the
+// incorrect-offset error, 2 nothing (timed out, server gone) and the log cannot tell either.
 type occOut struct {
-	OK     bool
+	Kind   int
 	Offset int64
 }
 
-func execC16(t *testing.T, prog *hx.Program, dec *simrt.Decider, verbose bool) *hx.Outcome {
-	type attempt struct {
-		client   int
-		expected int64
-		val      []byte
-		ok       bool
-		rejected bool // INCORRECT_OFFSET
-		unknown  bool
-		noAck    bool // the call returned success without an acknowledgement (ack policy NONE)
-		offset   int64
-		call     int64
-		ret      int64
-		errText  string
+// occAttempt is one publish.
+type occAttempt struct {
+	client   int
+	part     int32
+	expected int64
+	val      []byte
+	policy   client.AckPolicy
+	mode     string // "sync", "async", "pipe"
+	ok       bool
+	rejected bool // INCORRECT_OFFSET
+	refused  bool // ack policy NONE refused as a bad request: nothing was sent to the partition
+	unknown  bool
+	noAck    bool // the call returned success without an acknowledgement (ack policy NONE)
+	answered bool // (async) a response arrived
+	offset   int64
+	call     int64
+	ret      int64 // 0: no answer
+	errText  string
+	inc      int // restarts of the server before the call
+}
+
+// occSession is the client side of one PublishAsync call (an in-process client.API_PublishAsyncServer).
+type occSession struct {
+	ctx     context.Context
+	cancel  context.CancelFunc
+	in      []*client.PublishRequest
+	pos     int
+	done    bool // no more requests: Recv returns io.EOF
+	ended   bool // the handler returned
+	node    int  // simulation node (server incarnation) the call runs on
+	onResp  func(s *occSession, r *client.PublishResponse)
+	pending map[string]*occAttempt // by correlation id
+	stray   []*client.PublishResponse
+}
+
+func (p *occSession) Recv() (*client.PublishRequest, error) {
+	simrt.WaitUntil("occsession-recv", func() bool { return p.pos < len(p.in) || p.done || p.ctx.Err() != nil })
+	if p.pos < len(p.in) {
+		r := p.in[p.pos]
+		p.pos++
+		return r, nil
 	}
-	var attempts []*attempt
-	races, pauses := 0, 0
-	oc := runH3(t, prog, dec, verbose, 1, func(h *h3) {
+	if p.ctx.Err() != nil {
+		return nil, p.ctx.Err()
+	}
+	return nil, io.EOF
+}
+func (p *occSession) Send(r *client.PublishResponse) error { p.onResp(p, r); return nil }
+func (p *occSession) Context() context.Context             { return p.ctx }
+func (p *occSession) SetHeader(metadata.MD) error          { return nil }
+func (p *occSession) SendHeader(metadata.MD) error         { return nil }
+func (p *occSession) SetTrailer(metadata.MD)               {}
+func (p *occSession) SendMsg(m any) error                  { return p.Send(m.(*client.PublishResponse)) }
+func (p *occSession) RecvMsg(m any) error                  { return io.EOF }
+
+// occPartition reads a server's partition object without taking locks (for conditions the driver evaluates).
+func occPartition(n *simNode, part int32) *partition {
+	if n == nil || !n.up || n.srv == nil || n.srv.metadata == nil {
+		return nil
+	}
+	st := n.srv.metadata.streams[occStreamName]
+	if st == nil {
+		return nil
+	}
+	return st.partitions[part]
+}
+
+// occReadLog reads the partition's log on node n from its oldest offset (a retention rule may have moved it) to its end.
+func occReadLog(n *simNode, part int32) ([]storedMsg, error) {
+	p := n.srv.metadata.GetPartition(occStreamName, part)
+	if p == nil {
+		return nil, fmt.Errorf("no partition %s/%d on %s", occStreamName, part, n.id)
+	}
+	l := p.log
+	oldest := l.OldestOffset()
+	if oldest == -1 {
+		return nil, nil
+	}
+	r, err := l.NewReader(oldest, true)
+	if err != nil {
+		return nil, err
+	}
+	var out []storedMsg
+	buf := make([]byte, 28)
+	for {
+		m, off, ts, ep, err := r.ReadMessage(cancelled, buf)
+		if err != nil {
+			// The end of the log (the reader would have to wait), unless the cleaner deleted a segment under the
+			// reader: the publishers have finished, so a complete read ends at the log's newest offset.
+			last := int64(-1)
+			if len(out) > 0 {
+				last = out[len(out)-1].off
+			}
+			if newest := l.NewestOffset(); last != newest && newest >= oldest {
+				return out, fmt.Errorf("the read stopped after offset %d, the log ends at %d: %v", last, newest, err)
+			}
+			return out, nil
+		}
+		out = append(out, storedMsg{off: off, ts: ts, key: append([]byte(nil), m.Key()...), val: append([]byte(nil), m.Value()...), hdr: m.Headers(), epoch: ep})
+	}
+}
+
+func execC16(t *testing.T, prog *hx.Program, dec *simrt.Decider, verbose bool) *hx.Outcome {
+	var attempts []*occAttempt
+	races, pauses, restarts, fcrashes := 0, 0, 0, 0
+	nn := int(prog.Param("nodes", 1))
+	if nn != 3 {
+		nn = 1
+	}
+	parts := int(prog.Param("parts", 1))
+	if parts < 1 || parts > 3 {
+		parts = 1
+	}
+	segBytes, retMsgs := prog.Param("segbytes", 0), prog.Param("retmsgs", 0)
+	probes := map[string]int{}
+	oc := runH3(t, prog, dec, verbose, nn, func(h *h3) {
 		h.cfgHook = func(n *simNode, c *Config) {
 			c.BatchMaxMessages = int(prog.Param("batchmax", 1024))
 			c.BatchMaxTime = time.Duration(prog.Param("batchtime_ms", 0)) * time.Millisecond
+			if nn > 1 {
+				// (the follower's idle wait is ReplicaMaxIdleWait minus a jitter of up to 2 s: below 2 s followers spin)
+				c.Clustering.ReplicaMaxLagTime = 1500 * time.Millisecond
+				c.Clustering.ReplicaMaxLeaderTimeout = 5 * time.Second
+				c.Clustering.ReplicaMaxIdleWait = 2 * time.Second
+				c.Clustering.ReplicaFetchTimeout = 500 * time.Millisecond
+			}
 		}
-		n := h.single()
-		if n == nil {
+		var ctl *simNode
+		if nn == 1 {
+			ctl = h.single()
+		} else {
+			for i := 0; i < nn; i++ {
+				if err := h.startNode(i); err != nil {
+					h.oc.Trouble = "start: " + err.Error()
+					return
+				}
+			}
+			if ctl = h.waitController(60 * time.Second); ctl == nil {
+				h.oc.Trouble = "no metadata leader within 60 simulated seconds\n" + h.s.Dump()
+			}
+		}
+		if ctl == nil {
 			return
 		}
 		var cerr error
-		h.rpc(n, "create", func(api *apiServer) {
-			ctx, cancel := ctxT(10 * time.Second)
+		h.rpc(ctl, "create", func(api *apiServer) {
+			ctx, cancel := ctxT(30 * time.Second)
 			defer cancel()
-			_, cerr = api.CreateStream(ctx, &client.CreateStreamRequest{Name: "occ", Subject: "occ", Partitions: 1, ReplicationFactor: 1, OptimisticConcurrencyControl: nb(true)})
+			req := &client.CreateStreamRequest{Name: occStreamName, Subject: occStreamName, Partitions: int32(parts), ReplicationFactor: int32(nn), OptimisticConcurrencyControl: nb(true)}
+			if segBytes > 0 {
+				req.SegmentMaxBytes = &client.NullableInt64{Value: segBytes}
+				req.CleanerInterval = &client.NullableInt64{Value: prog.Param("cleaner_ms", 200)}
+			}
+			if retMsgs > 0 {
+				req.RetentionMaxMessages = &client.NullableInt64{Value: retMsgs}
+			}
+			_, cerr = api.CreateStream(ctx, req)
 		})
 		if cerr != nil {
 			h.oc.Trouble = "create stream: " + cerr.Error()
 			return
 		}
+		// leaderOf: the running server that leads the partition (highest epoch), read without locks
+		leaderOf := func(part int32) (*simNode, uint64) {
+			var best *simNode
+			var bestEpoch uint64
+			for _, x := range h.nodes {
+				if p := occPartition(x, part); p != nil && p.isLeading && (best == nil || p.LeaderEpoch > bestEpoch) {
+					best, bestEpoch = x, p.LeaderEpoch
+				}
+			}
+			return best, bestEpoch
+		}
+		allLed := func() bool {
+			for q := 0; q < parts; q++ {
+				if l, _ := leaderOf(int32(q)); l == nil {
+					paused := false
+					for _, x := range h.nodes {
+						if p := occPartition(x, int32(q)); p != nil && p.paused {
+							paused = true
+						}
+					}
+					if !paused {
+						return false
+					}
+				}
+			}
+			return true
+		}
+		if !h.waitFor("partition-leaders", 30*time.Second, allLed) {
+			h.oc.Trouble = "the partitions have no leader 30 simulated seconds after the stream was created"
+			return
+		}
+		type ledBy struct {
+			idx   int
+			epoch uint64
+		}
+		leaders := make([]ledBy, parts)
+		for q := 0; q < parts; q++ {
+			l, e := leaderOf(int32(q))
+			leaders[q] = ledBy{l.idx, e}
+		}
+		// leads: the server led a partition at the start, leads one now, or is named as leader in its own metadata
+		// (a pause can make the controller move the leadership)
+		leads := func(x *simNode) bool {
+			for q := 0; q < parts; q++ {
+				if leaders[q].idx == x.idx {
+					return true
+				}
+				if p := occPartition(x, int32(q)); p != nil && (p.isLeading || p.Leader == x.id) {
+					return true
+				}
+			}
+			return false
+		}
+		// pick: the first running server starting at position k
+		pick := func(k int) *simNode {
+			for j := 0; j < nn; j++ {
+				if x := h.nodes[(k+j)%nn]; x.up {
+					return x
+				}
+			}
+			return nil
+		}
+
 		var seq int64
-		known := int64(0) // number of successes the harness has seen so far = the next offset
-		inflight := map[int64]int{}
+		known := make([]int64, parts) // per partition: number of successes the publishers have seen so far = the next offset
+		inflight := map[[2]int64]int{}
+		restarting := false
+		var sessions []*occSession
+
+		// classification of the two kinds of answers
+		accept := func(a *occAttempt, ack *client.Ack, cid string) {
+			a.ok = true
+			a.offset = ack.Offset
+			if ack.CorrelationId != cid {
+				h.fail("C16/ack", "C16/ack/correlation", "ack for %q carries correlation id %q", a.val, ack.CorrelationId)
+			}
+			if a.offset+1 > known[a.part] {
+				known[a.part] = a.offset + 1
+			}
+		}
+		onResp := func(s *occSession, r *client.PublishResponse) {
+			a := s.pending[r.CorrelationId]
+			if a == nil || a.answered {
+				s.stray = append(s.stray, r)
+				if a == nil {
+					// the publisher cannot tell which of its publishes this answers
+					what := "acknowledgement"
+					if r.AsyncError != nil {
+						what = fmt.Sprintf("error %v (%s)", r.AsyncError.Code, r.AsyncError.Message)
+					}
+					h.fail("C16/ack", "C16/ack/async-correlation", "a PublishAsync session received an %s with correlation id %q, which is not the correlation id of any publish of that session", what, r.CorrelationId)
+				}
+				return
+			}
+			a.answered = true
+			seq++
+			a.ret = seq
+			a.unknown = false
+			switch {
+			case r.AsyncError == nil && r.Ack != nil:
+				accept(a, r.Ack, string(a.val))
+			case r.AsyncError != nil && r.AsyncError.Code == client.PublishAsyncError_INCORRECT_OFFSET:
+				a.rejected = true
+				a.errText = r.AsyncError.Message
+			case r.AsyncError != nil && r.AsyncError.Code == client.PublishAsyncError_BAD_REQUEST && a.policy == client.AckPolicy_NONE:
+				a.refused = true
+				a.errText = r.AsyncError.Message
+			default:
+				a.unknown = true
+				a.ret = 0
+				if r.AsyncError != nil {
+					a.errText = fmt.Sprintf("%v: %s", r.AsyncError.Code, r.AsyncError.Message)
+				}
+			}
+			h.s.Logf("client %d async answer p%d expected=%d -> ok=%v off=%d rejected=%v refused=%v unknown=%v %s", a.client, a.part, a.expected, a.ok, a.offset, a.rejected, a.refused, a.unknown, a.errText)
+		}
+		openSession := func(n *simNode) *occSession {
+			ctx, cancel := context.WithCancel(context.Background())
+			s := &occSession{ctx: ctx, cancel: cancel, node: n.node, onResp: onResp, pending: map[string]*occAttempt{}}
+			sessions = append(sessions, s)
+			api := n.srv.api
+			h.s.GoNode(n.node, "rpc:publishasync-session", func() { api.PublishAsync(s); s.ended = true })
+			probes["probe.async_sessions"]++
+			return s
+		}
+		closeSession := func(s *occSession) {
+			s.done = true
+			s.cancel()
+		}
+		newAttempt := func(ci int, part int32, expected int64, policy client.AckPolicy, mode string, rnd int64) *occAttempt {
+			a := &occAttempt{client: ci, part: part, expected: expected, policy: policy, mode: mode, inc: restarts}
+			a.val = []byte(fmt.Sprintf("v-%d-%d-%d-%d", ci, part, len(attempts), rnd%100000))
+			attempts = append(attempts, a)
+			if expected >= 0 && inflight[[2]int64{int64(part), expected}] > 0 {
+				races++
+			}
+			inflight[[2]int64{int64(part), expected}]++
+			seq++
+			a.call = seq
+			return a
+		}
+		expectedFor := func(kind int64, part int32, rnd int64) int64 {
+			k := known[part]
+			switch kind {
+			case 0:
+				return -1
+			case 1:
+				return k
+			case 2:
+				if e := k - 1 - rnd%3; e >= 0 {
+					return e
+				}
+				return k + 5
+			case 3:
+				return k + 1 + rnd%3
+			}
+			return -2 - rnd%5 // only -1 waives the check
+		}
+		policyOf := func(v int64) client.AckPolicy {
+			switch v {
+			case 2:
+				return client.AckPolicy_ALL
+			case 3:
+				return client.AckPolicy_NONE
+			}
+			return client.AckPolicy_LEADER
+		}
+
 		byClient := map[string][]hx.Op{}
 		var order []string
 		for _, op := range prog.Ops {
@@ -102,81 +486,207 @@ func execC16(t *testing.T, prog *hx.Program, dec *simrt.Decider, verbose bool) *
 			byClient[op.S] = append(byClient[op.S], op)
 		}
 		running := 0
+		h.s.SetTimeSkips(true) // (if the program asks for them)
 		for ci, name := range order {
 			ci, ops := ci, byClient[name]
 			running++
 			h.s.GoNode(100+ci, "client-"+name, func() {
 				defer func() { running-- }()
+				var sess *occSession
+				defer func() {
+					if sess != nil {
+						closeSession(sess)
+					}
+				}()
+				// session: this publisher's PublishAsync call, reopened when its server is gone
+				session := func(n *simNode) *occSession {
+					if sess != nil && (sess.node != n.node || sess.ended || sess.done) {
+						closeSession(sess)
+						sess = nil
+					}
+					if sess == nil {
+						sess = openSession(n)
+					}
+					return sess
+				}
+				// sendAsync hands publishes to the session back to back and then waits for the answers
+				sendAsync := func(n *simNode, as []*occAttempt) {
+					s := session(n)
+					for _, a := range as {
+						s.pending[string(a.val)] = a
+						a.unknown = true // until an answer arrives
+						s.in = append(s.in, &client.PublishRequest{Stream: occStreamName, Partition: a.part, Value: a.val, AckPolicy: a.policy, ExpectedOffset: a.expected, CorrelationId: string(a.val)})
+					}
+					h.waitFor("async-answers", 5*time.Second, func() bool {
+						if s.ended || h.s.Crashed(s.node) || h.stop {
+							return true
+						}
+						for _, a := range as {
+							if !a.answered {
+								return false
+							}
+						}
+						return true
+					})
+					for _, a := range as {
+						inflight[[2]int64{int64(a.part), a.expected}]--
+						if !a.answered {
+							probes["probe.async_unanswered"]++
+							h.s.Logf("client %d async p%d expected=%d: no answer", a.client, a.part, a.expected)
+						}
+					}
+				}
 				for _, op := range ops {
-					if h.stop {
+					if h.stop || h.oc.Trouble != "" {
 						return
 					}
-					if op.K == "sleep" {
+					if restarting && nn == 1 {
+						simrt.WaitUntil("server-restart", func() bool { return !restarting || h.stop })
+					}
+					switch op.K {
+					case "sleep":
 						simrt.Sleep(time.Duration(op.Arg(0, 1)) * time.Millisecond)
 						continue
-					}
-					if op.K == "pause" {
-						h.rpc(n, "pause", func(api *apiServer) {
-							ctx, cancel := ctxT(5 * time.Second)
-							defer cancel()
-							api.PauseStream(ctx, &client.PauseStreamRequest{Name: "occ"})
-						})
-						pauses++
+					case "pause":
+						if n := pick(ci); n != nil {
+							h.rpc(n, "pause", func(api *apiServer) {
+								ctx, cancel := ctxT(5 * time.Second)
+								defer cancel()
+								api.PauseStream(ctx, &client.PauseStreamRequest{Name: occStreamName})
+							})
+							pauses++
+						}
+						continue
+					case "restart":
+						// a clean stop in the middle of the publishers, and a restart: the recovered stream still checks expected offsets
+						if nn != 1 || restarting || !h.nodes[0].up {
+							continue
+						}
+						restarting = true
+						restarts++
+						h.s.Logf("clean stop and restart of the server")
+						h.stopNode(0)
+						for _, s := range sessions {
+							if !s.done {
+								closeSession(s)
+							}
+						}
+						simrt.Sleep(20 * time.Millisecond)
+						if err := h.startNode(0); err != nil {
+							if len(h.s.Panics) == 0 {
+								h.oc.Trouble = "restart: " + err.Error()
+							}
+							restarting = false
+							return
+						}
+						if op.Arg(0, 0) == 0 {
+							// the publishers continue at once: publishes reach a server whose partition does not lead yet
+							h.waitController(60 * time.Second)
+						} else {
+							h.pollFor("recovered", 60*time.Second, func() bool { return h.controller() != nil && allLed() })
+						}
+						restarting = false
+						continue
+					case "crashf":
+						// a server that leads no partition dies (its PublishAsync sessions and the publishes it was forwarding with it)
+						if nn == 1 {
+							continue
+						}
+						for j := 0; j < nn; j++ {
+							x := h.nodes[(int(op.Arg(0, 0))+j)%nn]
+							allUp := true
+							for _, y := range h.nodes {
+								allUp = allUp && y.up
+							}
+							if x.up && allUp && !restarting && !leads(x) {
+								h.s.Logf("crash %s (leads no partition)", x.id)
+								h.crashNode(x.idx)
+								fcrashes++
+								break
+							}
+						}
+						continue
+					case "restartf":
+						// (the publishers run concurrently: one restart at a time)
+						for _, x := range h.nodes {
+							if !x.up && nn > 1 && !restarting {
+								restarting = true
+								h.s.Logf("restart %s", x.id)
+								x.restarts++
+								err := h.startNode(x.idx)
+								restarting = false
+								if err != nil && len(h.s.Panics) == 0 {
+									h.oc.Trouble = "restart: " + err.Error()
+									return
+								}
+							}
+						}
+						continue
+					case "pipe":
+						n := pick(ci + int(op.Arg(5, 0)))
+						if n == nil {
+							continue
+						}
+						part := int32(op.Arg(3, 0) % int64(parts))
+						first := known[part]
+						switch op.Arg(4, 0) {
+						case 1:
+							first--
+						case 2:
+							first++
+						}
+						if first < 0 {
+							first = 0
+						}
+						var as []*occAttempt
+						for k := int64(0); k < op.Arg(0, 2); k++ {
+							as = append(as, newAttempt(ci, part, first+k, policyOf(op.Arg(1, 1)), "pipe", op.Arg(2, 0)+k))
+						}
+						sendAsync(n, as)
+						all := true
+						for _, a := range as {
+							all = all && a.ok
+						}
+						probes["probe.pipelined_batches"]++
+						if all {
+							probes["probe.pipelined_batches_all_accepted"]++
+						}
+						continue
+					case "pub":
+					default:
 						continue
 					}
-					a := &attempt{client: ci}
-					switch op.Arg(0, 0) {
-					case 0:
-						a.expected = -1
-					case 1:
-						a.expected = known
-					case 2:
-						a.expected = known - 1 - int64(op.Arg(2, 0)%3)
-						if a.expected < 0 {
-							a.expected = known + 5
-						}
-					case 3:
-						a.expected = known + 1 + int64(op.Arg(2, 0)%3)
-					default:
-						a.expected = -2 - int64(op.Arg(2, 0)%5) // only -1 waives the check
+					n := pick(ci + int(op.Arg(5, 0)))
+					if n == nil {
+						continue
 					}
-					a.val = []byte(fmt.Sprintf("v-%d-%d-%d", ci, len(attempts), op.Arg(2, 0)%100000))
-					attempts = append(attempts, a)
-					if inflight[a.expected] > 0 && a.expected >= 0 {
-						races++
+					part := int32(op.Arg(3, 0) % int64(parts))
+					policy := policyOf(op.Arg(1, 1))
+					if op.Arg(4, 0) == 1 {
+						a := newAttempt(ci, part, expectedFor(op.Arg(0, 0), part, op.Arg(2, 0)), policy, "async", op.Arg(2, 0))
+						sendAsync(n, []*occAttempt{a})
+						continue
 					}
-					inflight[a.expected]++
-					seq++
-					a.call = seq
-					policy := client.AckPolicy_LEADER
-					if op.Arg(1, 1) == 2 {
-						policy = client.AckPolicy_ALL
-					}
-					if op.Arg(1, 1) == 3 {
-						policy = client.AckPolicy_NONE
-					}
+					a := newAttempt(ci, part, expectedFor(op.Arg(0, 0), part, op.Arg(2, 0)), policy, "sync", op.Arg(2, 0))
 					var resp *client.PublishResponse
 					var err error
+					deadline := 5 * time.Second
+					if d := op.Arg(6, 0); d > 0 {
+						deadline = time.Duration(d) * time.Millisecond
+					}
 					alive := h.rpc(n, "publish", func(api *apiServer) {
-						ctx, cancel := ctxT(5 * time.Second)
+						ctx, cancel := ctxT(deadline)
 						defer cancel()
-						resp, err = api.Publish(ctx, &client.PublishRequest{Stream: "occ", Value: a.val, AckPolicy: policy, ExpectedOffset: a.expected, CorrelationId: string(a.val)})
+						resp, err = api.Publish(ctx, &client.PublishRequest{Stream: occStreamName, Partition: a.part, Value: a.val, AckPolicy: policy, ExpectedOffset: a.expected, CorrelationId: string(a.val)})
 					})
-					inflight[a.expected]--
+					inflight[[2]int64{int64(a.part), a.expected}]--
 					seq++
 					a.ret = seq
 					switch {
 					case !alive:
 						a.unknown = true
 					case err == nil && resp != nil && resp.Ack != nil:
-						a.ok = true
-						a.offset = resp.Ack.Offset
-						if resp.Ack.CorrelationId != string(a.val) {
-							h.fail("C16/ack", "C16/ack/correlation", "ack for %q carries correlation id %q", a.val, resp.Ack.CorrelationId)
-						}
-						if a.offset+1 > known {
-							known = a.offset + 1
-						}
+						accept(a, resp.Ack, string(a.val))
 					case err == nil && policy == client.AckPolicy_NONE:
 						// success without an acknowledgement: the publisher has been told nothing went wrong
 						a.noAck = true
@@ -184,144 +694,293 @@ func execC16(t *testing.T, prog *hx.Program, dec *simrt.Decider, verbose bool) *
 					case err != nil && status.Code(err) == codes.Unknown && status.Convert(err).Message() == "incorrect expected offset":
 						a.rejected = true
 						a.errText = err.Error()
+					case err != nil && status.Code(err) == codes.InvalidArgument && policy == client.AckPolicy_NONE:
+						// refused before anything was sent to the partition: the publisher knows that nothing was stored
+						a.refused = true
+						a.errText = err.Error()
 					default:
 						a.unknown = true
 						if err != nil {
 							a.errText = err.Error()
+							if status.Code(err) == codes.DeadlineExceeded || errors.Is(err, context.DeadlineExceeded) {
+								probes["probe.publish_timed_out"]++
+							} else {
+								probes["probe.publish_failed_otherwise"]++
+							}
 						}
 					}
-					h.s.Logf("client %d publish expected=%d -> ok=%v off=%d rejected=%v unknown=%v %s", ci, a.expected, a.ok, a.offset, a.rejected, a.unknown, a.errText)
+					if a.unknown {
+						a.ret = 0
+					}
+					h.s.Logf("client %d publish p%d expected=%d -> ok=%v off=%d rejected=%v refused=%v unknown=%v %s", ci, a.part, a.expected, a.ok, a.offset, a.rejected, a.refused, a.unknown, a.errText)
 				}
 			})
 		}
 		simrt.WaitUntil("clients", func() bool { return running == 0 || h.stop })
-		if h.stop {
+		h.s.SetTimeSkips(false)
+		if h.stop || h.oc.Trouble != "" || len(h.s.Panics) > 0 {
 			return
 		}
 		simrt.Sleep(100 * time.Millisecond)
-		if p := n.srv.metadata.GetPartition("occ", 0); p != nil && p.IsPaused() {
-			// (the last operation paused the stream: resume it to read the log)
-			h.rpc(n, "resume", func(api *apiServer) {
-				ctx, cancel := ctxT(5 * time.Second)
-				defer cancel()
-				n.srv.metadata.ResumeStream(ctx, &proto.ResumeStreamOp{Stream: "occ", Partitions: []int32{0}})
-			})
+		if nn == 1 && h.nodes[0].up {
+			h.pollFor("recovered", 60*time.Second, func() bool { return h.controller() != nil && allLed() })
+		}
+		// (operations may have paused the stream: resume it to read the logs)
+		var paused []int32
+		for q := 0; q < parts; q++ {
+			for _, x := range h.nodes {
+				if p := occPartition(x, int32(q)); p != nil && p.paused {
+					paused = append(paused, int32(q))
+					break
+				}
+			}
+		}
+		if len(paused) > 0 {
+			if c := h.waitController(30 * time.Second); c != nil {
+				h.rpc(c, "resume", func(api *apiServer) {
+					ctx, cancel := ctxT(5 * time.Second)
+					defer cancel()
+					c.srv.metadata.ResumeStream(ctx, &proto.ResumeStreamOp{Stream: occStreamName, Partitions: paused})
+				})
+			}
+			h.waitFor("resumed", 10*time.Second, allLed)
 			simrt.Sleep(100 * time.Millisecond)
 		}
-		msgs, err := h.readLog(n, "occ", 0)
-		if err != nil {
-			h.oc.Trouble = "read log: " + err.Error()
-			return
-		}
-		// direct checks
-		at := map[int64][]byte{}
-		for _, m := range msgs {
-			at[m.off] = m.val
-		}
-		winners := map[int64]int{}
-		anyUnknown := false
-		for _, a := range attempts {
-			h.oc.Checks++
-			switch {
-			case a.ok:
-				if a.expected != -1 && a.offset != a.expected {
-					h.fail("C16/offset", "C16/offset/landed-elsewhere", "publish of %q expected offset %d and was acknowledged at offset %d", a.val, a.expected, a.offset)
-				}
-				if !bytes.Equal(at[a.offset], a.val) {
-					h.fail("C16/offset", "C16/offset/ack-not-stored", "publish of %q was acknowledged at offset %d but the log holds %q there", a.val, a.offset, at[a.offset])
-				}
-				if a.expected != -1 {
-					winners[a.expected]++
-				}
-			case a.rejected:
-				if a.expected == -1 {
-					h.fail("C16/waived", "C16/waived/rejected", "publish of %q waived the check (expected offset -1) and was rejected: %s", a.val, a.errText)
-				}
-				for _, m := range msgs {
-					if bytes.Equal(m.val, a.val) {
-						h.fail("C16/rejected", "C16/rejected/stored", "publish of %q (expected offset %d) was rejected with an incorrect-offset error but is stored at offset %d", a.val, a.expected, m.off)
-					}
-				}
-			case a.noAck:
-				anyUnknown = true
-				// "...otherwise the publisher gets an incorrect-offset error and the log is unchanged": a publish
-				// that was answered with success is stored, and where it expected to be
-				storedAt := int64(-1)
-				for _, m := range msgs {
-					if bytes.Equal(m.val, a.val) {
-						storedAt = m.off
-					}
-				}
-				if storedAt == -1 {
-					h.fail("C16/offset", "C16/offset/success-but-not-stored", "publish of %q (expected offset %d, ack policy NONE) returned without an error, but the message is not in the log", a.val, a.expected)
-				} else if a.expected != -1 && storedAt != a.expected {
-					h.fail("C16/offset", "C16/offset/landed-elsewhere", "publish of %q expected offset %d and is stored at offset %d", a.val, a.expected, storedAt)
-				}
-			default:
-				anyUnknown = true
+
+		for q := 0; q < parts; q++ {
+			part := int32(q)
+			ld, epoch := leaderOf(part)
+			if ld == nil && nn > 1 {
+				// (whether a paused and resumed replicated partition finds a leader again is not this property's matter)
+				probes["probe.partition_not_judged_no_leader"]++
+				continue
+			}
+			if ld == nil {
+				h.oc.Trouble = fmt.Sprintf("partition %d has no leader at the end of the run", q)
+				return
+			}
+			if nn > 1 && (ld.idx != leaders[q].idx || epoch != leaders[q].epoch) {
+				// The leadership moved although no leader was touched. What a new leader keeps of messages that were
+				// acknowledged by the old one alone is the subject of other properties: this partition is not judged.
+				probes["probe.partition_not_judged_leader_changed"]++
+				continue
+			}
+			msgs, err := occReadLog(ld, part)
+			for try := 0; err != nil && try < 5; try++ {
+				// (the cleaner deleted a segment between the look at the oldest offset and the opening of the reader, or under the reader)
+				simrt.Sleep(time.Millisecond)
+				msgs, err = occReadLog(ld, part)
+			}
+			if err != nil {
+				h.oc.Trouble = "read log: " + err.Error()
+				return
+			}
+			h.occJudge(part, msgs, attempts, retMsgs > 0, probes)
+			if h.stop {
+				return
+			}
+			if files, _ := filepath.Glob(filepath.Join(ld.dir, "streams", occStreamName, fmt.Sprint(q), "*.log")); len(files) > 1 {
+				probes["probe.partition_with_several_segments"]++
+			}
+			if len(msgs) > 0 && msgs[0].off > 0 {
+				probes["probe.partition_log_start_moved_by_retention"]++
 			}
 		}
-		for e, w := range winners {
-			if w > 1 {
-				h.fail("C16/race", "C16/race/two-winners", "%d publishes with expected offset %d succeeded", w, e)
+		for i := range h.nodes {
+			if h.nodes[i].up {
+				h.stopNode(i)
 			}
 		}
-		// every stored message is one that was published, once
-		seen := map[string]bool{}
-		for _, m := range msgs {
-			if seen[string(m.val)] {
-				h.fail("C16/log", "C16/log/duplicate", "value %q is stored twice", m.val)
-			}
-			seen[string(m.val)] = true
-		}
-		// linearizability against the model "log of length L"
-		if !anyUnknown && !h.stop {
-			var ops []hx.LinOp
-			for _, a := range attempts {
-				ops = append(ops, hx.LinOp{Client: a.client, In: occIn{a.expected}, Out: occOut{a.ok, a.offset}, Call: a.call, Return: a.ret})
-			}
-			res := hx.Linearizable(
-				func() any { return int64(0) },
-				func(st, in, out any) (bool, any) {
-					L, i, o := st.(int64), in.(occIn), out.(occOut)
-					if i.Expected == -1 || i.Expected == L {
-						return o.OK && o.Offset == L, L + 1
-					}
-					return !o.OK, L
-				},
-				func(a, b any) bool { return a.(int64) == b.(int64) },
-				ops, 20*time.Second)
-			h.oc.Checks++
-			switch res {
-			case "illegal":
-				h.fail("C16/linearizable", "C16/linearizable", "the history of %d conditional publishes is not linearizable against a log of length L (success iff expected in {-1, L})", len(ops))
-			case "unknown":
-				h.s.Count("probe.linearizability_inconclusive")
-			}
-		} else if anyUnknown {
-			h.s.Count("probe.history_with_unknown_outcome")
-		}
-		h.stopNode(0)
 	})
 	succ, rej := 0, 0
 	for _, a := range attempts {
 		if a.ok {
 			succ++
+			probes["probe.accepted."+a.mode]++
+			if a.inc > 0 {
+				probes["probe.accepted_after_restart"]++
+			}
 		}
 		if a.rejected {
 			rej++
+			probes["probe.rejected_incorrect_offset."+a.mode]++
+			if a.inc > 0 {
+				probes["probe.rejected_after_restart"]++
+			}
 		}
+		if a.refused {
+			probes["probe.refused_ack_policy_none."+a.mode]++
+		}
+		probes["probe.publishes."+a.mode]++
 	}
 	oc.Nontrivial = succ >= 1 && rej >= 1 && len(attempts) >= 4
 	if oc.Counters == nil {
 		oc.Counters = map[string]int{}
+	}
+	for _, k := range simrt.Keys(probes) {
+		oc.Counters[k] += probes[k]
 	}
 	oc.Counters["probe.publishes"] = len(attempts)
 	oc.Counters["probe.accepted"] = succ
 	oc.Counters["probe.rejected_incorrect_offset"] = rej
 	oc.Counters["probe.same_expected_offset_in_flight_together"] = races
 	oc.Counters["fault.stream_paused"] = pauses
+	oc.Counters["fault.server_clean_restart"] = restarts
+	oc.Counters["fault.server_leading_nothing_crashed"] = fcrashes
+	if nn > 1 {
+		oc.Counters["probe.runs_with_three_servers"] = 1
+	}
+	if parts > 1 {
+		oc.Counters["probe.runs_with_several_partitions"] = 1
+	}
 	return oc
+}
+
+// occJudge judges the publishes to one partition against the partition's log as it is at the end.
+// incomplete: a retention rule may have deleted the beginning of the log.
+func (h *h3) occJudge(part int32, msgs []storedMsg, all []*occAttempt, incomplete bool, probes map[string]int) {
+	var attempts []*occAttempt
+	for _, a := range all {
+		if a.part == part {
+			attempts = append(attempts, a)
+		}
+	}
+	at := map[int64][]byte{}
+	storedAt := map[string]int64{}
+	if len(msgs) > 0 {
+		h.s.Logf("partition %d: the log holds offsets %d..%d (%d messages)", part, msgs[0].off, msgs[len(msgs)-1].off, len(msgs))
+	} else {
+		h.s.Logf("partition %d: the log is empty", part)
+	}
+	// first: the offset from which on the log must hold what was acknowledged (with a retention rule: what is
+	// left of it; the cleaner's tick can roll a full segment and then delete every older one, leaving an empty log)
+	first := int64(0)
+	if incomplete {
+		first = math.MaxInt64
+		if len(msgs) > 0 {
+			first = msgs[0].off
+		}
+	}
+	// every stored message is stored once
+	for _, m := range msgs {
+		h.oc.Checks++
+		if _, dup := storedAt[string(m.val)]; dup {
+			h.fail("C16/log", "C16/log/duplicate", "value %q is stored twice in partition %d", m.val, part)
+			return
+		}
+		at[m.off] = m.val
+		storedAt[string(m.val)] = m.off
+	}
+	winners := map[int64]int{}
+	for _, a := range attempts {
+		h.oc.Checks++
+		off, stored := storedAt[string(a.val)]
+		switch {
+		case a.ok:
+			if a.expected != -1 && a.offset != a.expected {
+				h.fail("C16/offset", "C16/offset/landed-elsewhere", "publish of %q expected offset %d and was acknowledged at offset %d", a.val, a.expected, a.offset)
+			}
+			if a.offset >= first && !bytes.Equal(at[a.offset], a.val) {
+				h.fail("C16/offset", "C16/offset/ack-not-stored", "publish of %q was acknowledged at offset %d but the log of partition %d holds %q there", a.val, a.offset, part, at[a.offset])
+			}
+			if a.expected != -1 {
+				winners[a.expected]++
+			}
+		case a.rejected:
+			if a.expected == -1 {
+				h.fail("C16/waived", "C16/waived/rejected", "publish of %q waived the check (expected offset -1) and was rejected: %s", a.val, a.errText)
+			}
+			if stored {
+				h.fail("C16/rejected", "C16/rejected/stored", "publish of %q (expected offset %d) was rejected with an incorrect-offset error but is stored at offset %d", a.val, a.expected, off)
+			}
+		case a.refused:
+			// refused as a bad request (ack policy NONE): an error answer, the log is unchanged
+			if stored {
+				h.fail("C16/rejected", "C16/refused/stored", "publish of %q (expected offset %d, ack policy NONE) was refused (%s) but is stored at offset %d", a.val, a.expected, a.errText, off)
+			}
+		case a.noAck:
+			// "...otherwise the publisher gets an incorrect-offset error and the log is unchanged": a publish
+			// that was answered with success is stored, and where it expected to be
+			if !stored && !incomplete {
+				h.fail("C16/offset", "C16/offset/success-but-not-stored", "publish of %q (expected offset %d, ack policy NONE) returned without an error, but the message is not in the log", a.val, a.expected)
+			}
+			fallthrough
+		default:
+			// no answer (timed out, the server stopped or died): whatever is stored is where it expected to be
+			if stored && a.expected != -1 && off != a.expected {
+				h.fail("C16/offset", "C16/offset/landed-elsewhere", "publish of %q expected offset %d and is stored at offset %d of partition %d", a.val, a.expected, off, part)
+			}
+		}
+		if h.stop {
+			return
+		}
+	}
+	for _, e := range simrt.Keys(winners) {
+		if winners[e] > 1 {
+			h.fail("C16/race", "C16/race/two-winners", "%d publishes with expected offset %d succeeded in partition %d", winners[e], e, part)
+			return
+		}
+	}
+	// Linearizability against the model "log of length L": a publish succeeds, at offset L, iff it expected -1 or L.
+	// A publish without an answer (timed out, its server stopped or died) is settled by the log where the log can
+	// tell: stored at k = accepted at k at some time after the call; not stored in a log that still has its
+	// beginning = never happened. Otherwise it may or may not have taken effect.
+	var ops []hx.LinOp
+	nd := 0
+	for _, a := range attempts {
+		off, stored := storedAt[string(a.val)]
+		switch {
+		case a.ok:
+			ops = append(ops, hx.LinOp{Client: a.client, In: occIn{a.expected}, Out: occOut{0, a.offset}, Call: a.call, Return: a.ret})
+		case a.rejected:
+			ops = append(ops, hx.LinOp{Client: a.client, In: occIn{a.expected}, Out: occOut{1, 0}, Call: a.call, Return: a.ret})
+		case a.refused:
+			// a definite no-op
+		case stored:
+			probes["probe.unanswered_publish_settled_by_the_log"]++
+			ops = append(ops, hx.LinOp{Client: a.client, In: occIn{a.expected}, Out: occOut{0, off}, Call: a.call})
+		case !incomplete:
+			probes["probe.unanswered_publish_settled_by_the_log"]++
+		default:
+			nd++
+			ops = append(ops, hx.LinOp{Client: a.client, In: occIn{a.expected}, Out: occOut{2, 0}, Call: a.call})
+		}
+	}
+	if nd > 0 {
+		probes["probe.history_with_unknown_outcome"]++
+	}
+	res := hx.LinearizableND(
+		[]any{int64(0)},
+		func(st, in, out any) []any {
+			L, i, o := st.(int64), in.(occIn), out.(occOut)
+			fits := i.Expected == -1 || i.Expected == L
+			switch o.Kind {
+			case 0:
+				if fits && o.Offset == L {
+					return []any{L + 1}
+				}
+				return nil
+			case 1:
+				if !fits {
+					return []any{L}
+				}
+				return nil
+			}
+			if fits {
+				return []any{L, L + 1}
+			}
+			return []any{L}
+		},
+		func(a, b any) bool { return a.(int64) == b.(int64) },
+		ops, 20*time.Second)
+	h.oc.Checks++
+	probes["probe.histories_checked_for_linearizability"]++
+	switch res {
+	case "illegal":
+		h.fail("C16/linearizable", "C16/linearizable", "the history of %d conditional publishes to partition %d is not linearizable against a log of length L (success iff expected in {-1, L})", len(ops), part)
+	case "unknown":
+		probes["probe.linearizability_inconclusive"]++
+	}
 }
 
 func init() {
